@@ -2,6 +2,7 @@
 From Coq Require Import List Arith Bool Lia QArith.
 Import ListNotations.
 Require Import NV.C23.Model NV.C23.Proofs NV.C19.Model.
+Require NV.C23.Leaves.
 Local Open Scope nat_scope.
 
 (* ---------------------------------------------------------------------------------------------- *)
@@ -100,21 +101,20 @@ Proof.
   apply andb_true_iff in H. destruct H as [H1 H2]. apply Nat.eqb_eq in H1. subst. f_equal. now apply IH.
 Qed.
 
-(* the tree of allreduce_sum (C23) is the ordered sum, for up to 128 summands *)
-Lemma tree_sum_assoc (vals : list A) : 1 <= length vals <= 128 ->
+Lemma leaves_fold1_fold_left : forall (l : list A) x, Leaves.fold1 A op x l = fold_left op l x.
+Proof. induction l as [|y l IH]; intros x; simpl; [reflexivity|apply IH]. Qed.
+
+(* the tree of allreduce_sum (C23) is the ordered sum, for ANY number >= 1 of summands
+   (unbounded tree-shape theorem NV.C23.Leaves.seq_sum_assoc) *)
+Lemma tree_sum_assoc (vals : list A) : 1 <= length vals ->
   seq_sum A op vals = sum1 op vals.
 Proof.
   intros Hn. destruct vals as [|d vals0] eqn:E; [simpl in Hn; lia|]. rewrite <- E in *.
-  assert (Hl := tree_leaves_bounded (length vals) Hn).
-  unfold leaves_ok in Hl.
-  destruct (seq_sum tm P (sym_vals (length vals))) as [t|] eqn:Et; [|discriminate].
-  apply list_eqb_nat_sound in Hl.
-  assert (Hm : map (eval vals d) (sym_vals (length vals)) = vals).
-  { unfold sym_vals. rewrite map_map. simpl. apply map_nth_seq. }
-  rewrite <- Hm at 1.
-  rewrite (seq_sum_hom tm A P op (eval vals d)) by reflexivity.
-  rewrite Et. simpl. rewrite eval_leaves, Hl, map_nth_seq.
-  rewrite E. reflexivity.
+  pose proof (Leaves.seq_sum_assoc A op (fun i => nth i vals d) op_assoc (length vals) Hn) as H.
+  rewrite map_nth_seq in H. rewrite H. rewrite leaves_fold1_fold_left.
+  rewrite E. cbn [length nth sum1]. f_equal. f_equal.
+  replace (S (length vals0) - 1) with (length vals0) by lia.
+  rewrite <- seq_shift, map_map. cbn [nth]. apply map_nth_seq.
 Qed.
 End Assoc.
 
@@ -253,7 +253,7 @@ Qed.
 
 Lemma kl_value_mean (e : kl) :
   let smp := sl_samples T tadd tsub (kl_sl e) in
-  1 <= length smp <= 128 ->
+  1 <= length smp ->
   kl_value T tadd tsub tdivn hval hgrad e
   = option_map (fun s => tdivn s (length smp)) (sum1 tadd (map (hval (kl_constants e)) smp)).
 Proof.
@@ -268,7 +268,7 @@ Qed.
 
 Lemma kl_gradient_mean (e : kl) :
   let smp := sl_samples T tadd tsub (kl_sl e) in
-  1 <= length smp <= 128 ->
+  1 <= length smp ->
   kl_gradient T tadd tsub tdivn hval hgrad e
   = option_map (fun s => mf_divn T tdivn s (length smp))
       (sum1 (mf_add T tadd) (map (fun s => reduce_field T (hgrad s) (kl_constants e)) smp)).
@@ -285,7 +285,7 @@ Qed.
 
 Lemma kl_metric_mean (e : kl) (x : mf) :
   let smp := sl_samples T tadd tsub (kl_sl e) in
-  1 <= length smp <= 128 ->
+  1 <= length smp ->
   kl_apply_metric T tadd tsub tdivn hmet e x
   = option_map (fun s => mf_divn T tdivn s (length smp))
       (sum1 (mf_add T tadd)
@@ -299,7 +299,7 @@ Qed.
 
 (* JAX reduction = classic tree average on the same samples (all neg flags false) *)
 Lemma jax_value_eq_classic (primals : mf) (res : list mf) :
-  1 <= length res <= 128 ->
+  1 <= length res ->
   jax_kl_value T tadd tsub tdivn hval primals res
   = kl_value T tadd tsub tdivn hval hgrad
       {| kl_sl := {| sl_mean := primals; sl_res := res; sl_neg := repeat false (length res) |};
@@ -317,7 +317,7 @@ Proof.
 Qed.
 
 Lemma jax_grad_eq_classic (primals : mf) (res : list mf) (cst : list nat) :
-  1 <= length res <= 128 ->
+  1 <= length res ->
   jax_kl_grad T tadd tsub tdivn hgrad cst primals res
   = kl_gradient T tadd tsub tdivn hval hgrad
       {| kl_sl := {| sl_mean := primals; sl_res := res; sl_neg := repeat false (length res) |};
@@ -433,7 +433,7 @@ Proof.
 Qed.
 
 Lemma q_value_no_constants (M : pmodel) (s : slist Q) (inv : option qmf) :
-  (1 <= length (sl_samples Q qadd qsub s) <= 128)%nat ->
+  (1 <= length (sl_samples Q qadd qsub s))%nat ->
   q_kl_value M {| kl_sl := s; kl_constants := []; kl_invariants := inv |}
   = q_mean_of_hamiltonian M {| kl_sl := s; kl_constants := []; kl_invariants := inv |}.
 Proof.
